@@ -22,7 +22,7 @@ Definition source_facts_statement : Prop :=
   view_find_next_tasks = ["get_current_task_dict(task_ex)"; "ctx"; "get_workflow_environment_dict(self.wf_ex)"; "self.wf_ex.context"; "self.wf_ex.input"] /\
   view_expression_context = ["get_current_task_dict(self.task_ex)"; "get_workflow_environment_dict(self.wf_ex)"; "ctx or {}"; "self.task_ex.in_context"; "self.wf_ex.context"; "self.wf_ex.input"] /\
   view_get_target = ["input_dict"; "self.ctx"; "get_workflow_environment_dict(self.wf_ex)"; "self.wf_ex.context"; "self.wf_ex.input"] /\
-  view_get_timeout = ["self.task_ex.in_context"; "wf_ex.context"; "wf_ex.input"] /\
+  view_get_timeout = ["self.evaluate(timeout)"] /\    (* the standard task view: view_expression_context *)
   view_getitem_iterates = "self.dicts" /\
   view_dicts_assignments = ["[res]"; "[d for d in dicts if d is not None]"] /\
   merge_compare = "r_ver > l_ver" /\
